@@ -227,7 +227,7 @@ func runCrypto(args []string) error {
 			}
 			// secret scan: everything written to the browser or the store during a login + refresh
 			secrets := map[string]string{"deployment-key": string(s.key), "dek-A": string(A.dek), "dek-B": string(B.dek),
-				"id-token-A": A.idToken, "access-token-A": fmt.Sprintf("at-%d", A.tokenID), "refresh-token-A": fmt.Sprintf("rt-%d", A.tokenID),
+				"id-token-A": A.idToken, "access-token-A": fmt.Sprintf("at-%s-%d", s.idp.salt, A.tokenID), "refresh-token-A": fmt.Sprintf("rt-%s-%d", s.idp.salt, A.tokenID),
 				"client-secret": s.cfg.OpenID.ClientSecret}
 			if f, ok := s.decryptCookie(loginCookie); ok {
 				secrets["code-verifier"] = f["code_verifier"]
